@@ -217,6 +217,10 @@ def run_gen(vh, family, tier, seed, shards=None, states=None, walks=None, only=N
     hang = os.path.join(out, "HANG")
     if os.path.exists(hang):
         return {"dir": out, "hang": open(hang).read(), "stderr": p.stderr}
+    crash = os.path.join(out, "CRASH")
+    if p.returncode != 0 and os.path.exists(crash) and "fatal error" in p.stderr:
+        # the process died inside the library on the recorded case (reported like a hang: the real code did not return)
+        return {"dir": out, "hang": open(crash).read()[:2000] + " | " + p.stderr[:300], "stderr": p.stderr}
     if halt_rc is not None and p.returncode == halt_rc:
         return {"dir": out, "halted": True, "files": [], "stderr": p.stderr}
     if p.returncode != 0:
